@@ -1125,9 +1125,11 @@ def extra_coverage(agg):
 
 
 RULE = (
-    "one evaluation = one seeded history of 1-6 operations from {decimate, detrend, filter, rollback, "
-    "add_algorithms} on a real SingleSetup or MultiSetup_PreGER (1-3 datasets, 2-5 channels, any "
-    "reference layout), scipy faults injected on the k-th per-dataset call; distinct = distinct history "
+    "one evaluation = one seeded history of 1-6 (thorough: up to 10) operations from {decimate, detrend, filter, rollback, "
+    "add_algorithms} - sometimes repeated verbatim after a rollback, interleaved with operations on another setup object "
+    "or with read-only plotting calls - on a real SingleSetup or MultiSetup_PreGER (1-3 datasets, 2-5 channels, any "
+    "reference layout, several dtypes / memory layouts / forms of fs and of the arguments, now and then a record of more "
+    "than a million samples), scipy faults injected on the k-th per-dataset call; distinct = distinct history "
     "signature (setup class + sequence of (operation kind, outcome class)); non-trivial = at least two "
     "state-changing operations succeeded or at least one fault fired inside an operation"
 )
